@@ -335,11 +335,17 @@ def build(schemas, tag="fresh"):
         specs.append("%s=%s.proto" % (p, pkg))
     base = os.path.join(C.BIN, "zzverif")
     results, extra, log = {}, [], ""
+    plain = os.path.join(root, "gen-plain")     # the same schemas without field_access: compiled, never run
+    os.makedirs(os.path.join(plain, "fresh"))
     for spec in specs:
         pkg = os.path.basename(spec).split("=")[1][:-6]
         outdir = os.path.join(gen, "fresh", pkg)
-        rc, so, se = C.run([base, "genrun", plugin, outdir, "paths=source_relative", spec], check=False, timeout=300,
+        # the driver is built from the output WITH accessors (plugin parameter field_access=true): the codecs must not depend
+        # on the parameter (checked below), and the accessors are exercised by the msg suite
+        rc, so, se = C.run([base, "genrun", plugin, outdir, "paths=source_relative,field_access=true", spec], check=False, timeout=300,
                            env=dict(os.environ, VERIF_REPO=C.REPO))
+        C.run([base, "genrun", plugin, os.path.join(plain, "fresh", pkg), "paths=source_relative", spec], check=False, timeout=300,
+              env=dict(os.environ, VERIF_REPO=C.REPO))
         line = [l for l in so.split("\n") if l.startswith("genrun\t")]
         if rc != 0 or not line:
             results[pkg] = "error: driver: " + (so + se)[-500:]
@@ -363,6 +369,24 @@ def build(schemas, tag="fresh"):
         else:
             ok_extra.append(e)
     extra = ok_extra
+    # the output without accessors: compiles too, and is the output with accessors minus lines (same codecs)
+    ovp = C.write_overlay(plain)
+    for e in list(extra):
+        pkg = e[1][:-6]
+        pf = os.path.join(plain, "fresh", pkg, pkg + ".pico.go")
+        if not os.path.exists(pf):
+            results[pkg] = "error: generator fails without field_access although it succeeds with it"
+            extra.remove(e)
+            continue
+        rc, so, se = C.run(["go", "build", "-tags", "verif", "-overlay", ovp, "./internal/zzverif/fresh/" + pkg], cwd=C.REPO, env=C.GOENV, check=False, timeout=600)
+        if rc != 0:
+            results[pkg] = "compile-error: (without field_access) " + " | ".join((so + se).strip().split("\n")[:4])[:600]
+            extra.remove(e)
+            continue
+        it = iter(open(e[4]).read().split("\n"))
+        if not all(any(l == m for m in it) for l in open(pf).read().split("\n")):
+            results[pkg] = "compile-error: output without field_access is not the output with field_access minus the accessors"
+            extra.remove(e)
     registry.generate(extra=extra, out_path=os.path.join(gen, "zz_registry.go"))
     out = os.path.join(C.BIN, "zzverif-" + tag)
     rc, msg, dt = C.go_build("./internal/zzverif", out, gen_root=gen)
